@@ -271,6 +271,13 @@ func (h *handler1) handleClientPublish(ctx context.Context, snPublish *snPkts1.P
 func (h *handler1) handleBrokerPublish(ctx context.Context, mqPublish *mqPkts.PublishPacket) error {
 	msgID := mqPublish.MessageID
 
+	// MQTT-SN has no fragmentation: a message which does not fit into one
+	// MQTT-SN packet (4B header + 5B PUBLISH fields + payload) can't be delivered.
+	if len(mqPublish.Payload)+9 > snPkts1.MaxPacketLen {
+		h.log.Error("PUBLISH payload too long (%d bytes), dropped.", len(mqPublish.Payload))
+		return nil
+	}
+
 	// Get TopicID
 	var needsRegister bool
 	var topicID uint16
